@@ -670,6 +670,14 @@ def abstract(g, devs, without=None):
     return out
 
 
+def jointly_invalid(R):
+    """two values each inside its own range that no definition can hold together (pairs of deviations reach these)"""
+    if R.get('kind') == 'vpls':
+        # RFC 4761 3.2.2: the block is the labels base .. base+size-1, all of them 20-bit labels
+        return R['base'] + R['size'] > T.P20
+    return False
+
+
 def kindclass(kind):
     k = kind.split(':', 1)[0]
     return 'accepted' if k.startswith('accepted-') else k
@@ -691,12 +699,15 @@ def judge(g, path, form, devs, out, sess):
     if st == 'protocol':
         return 'protocol', [(None, 'reply-protocol', out['msg'])]
     if st == 'refused':
-        if all(d.cls == 'ok' for d in devs) and not any(R.get('mixed') for R in abstract(g, devs)):
+        if all(d.cls == 'ok' for d in devs) and not any(R.get('mixed') or jointly_invalid(R) for R in abstract(g, devs)):
             viols.append((None, 'refused-valid', f'valid definition refused ({out.get("how")}: {out["msg"]})'))
         return 'refused:' + str(out.get('how')), viols
     # accepted
     routes = out['routes']
     bad = [d for d in devs if d.cls == 'bad']
+    if bad and all(d.bnd == 'without-label' for d in bad) and all('all' in R.get('skip', ()) for d in bad for R in abstract(g, devs, without=d)):
+        # `rd` without a label is a value an unlabelled NLRI cannot carry: a definition that names no NLRI at all has nothing it could be dropped from
+        bad = []
     results = []   # per session: (outcome, viols) for the best alternative
     Rs = abstract(g, devs)
     Rb = {d.key: abstract(g, devs, without=d) for d in bad}
